@@ -198,6 +198,69 @@ func checkC16(c *Ctx, w *World) {
 	}
 	c.floor("C16.ctor", nr, 1)
 
+	// ---- C16.live: "no accepted or rejected update can make a later RPC panic or use a closed pool".
+	// pickConn dereferences mes[defaultName] (or mes[name]) and pools[me.Current()] without further checks; both are
+	// safe by invariants that are compositions of rules checked elsewhere. The premises are re-evaluated here.
+	{
+		c15 := newCtx("C15", c.Tier, c.Repo, c.Verif)
+		func() {
+			defer func() {
+				if r := recover(); r != nil {
+					c15.fatalf("panic: %v", r)
+				}
+			}()
+			checkC15(c15, w)
+		}()
+		var broken []string
+		for _, o := range c15.Obs {
+			if o.Status == "ok" {
+				continue
+			}
+			for _, fam := range []string{"C15.mes", "C15.dial", "C15.close", "C15.pick"} {
+				if o.Rule == fam {
+					broken = append(broken, o.Rule+" @ "+o.Construct)
+				}
+			}
+		}
+		broken = append(broken, c15.fatal...)
+		// defaultName is assigned only when the options contain it
+		hasDefault := func(v ssa.Value) bool {
+			e, ok := stripConv(v).(*ssa.Extract)
+			if !ok || e.Index != 1 {
+				return false
+			}
+			l, ok := e.Tuple.(*ssa.Lookup)
+			return ok && l.CommaOk && isLoadOf(l.X, "GCPMultiEndpointOptions.MultiEndpoints") && isLoadOf(l.Index, "GCPMultiEndpointOptions.Default")
+		}
+		dcs := newCondSpace(upd, recOf(boolAtom("defaultConfigured", hasDefault)), "defaultConfigured")
+		for _, a := range g.ai.ByFn[upd] {
+			if a.Field == "GCPMultiEndpoint.defaultName" && a.What == "store" {
+				if imp, _ := dcs.Implies(dcs.Reach(a.Instr), dcs.Atom("defaultConfigured")); !imp || !dcs.Seen("defaultConfigured") {
+					broken = append(broken, "defaultName can be set to a name that has no options")
+				}
+			}
+		}
+		// the constructor hands the object out only after a successful first update
+		for _, r := range returnsOf(g.ctor) {
+			if nilObj, _ := allOrigins(r.Results[0], isConstNilOrigin); nilObj {
+				continue
+			}
+			okAfter := false
+			for _, u := range g.callsIn(g.ctor, upd) {
+				ucs := newCondSpace(g.ctor, recOf(eqAtom("updOK", isVal(u), isNil)), "updOK")
+				if imp, _ := ucs.Implies(ucs.Reach(r), ucs.Atom("updOK")); imp && ucs.Seen("updOK") {
+					okAfter = true
+				}
+			}
+			if !okAfter {
+				broken = append(broken, "NewGCPMultiEndpoint can return an object whose first update did not succeed")
+			}
+		}
+		c.check(len(broken) == 0, "C16.live", "pickConn: mes[default] and pools[Current()] are present", p.pos(g.pickConn.Pos()),
+			"every returned object completed a successful update; a successful update leaves mes keys = option keys ∋ defaultName, every endpoint of every MultiEndpoint has a pool, pools are deleted only when unmentioned, failed updates change none of this (validate-first), and Current() is a member of its MultiEndpoint's list (C13): the two unchecked lookups in pickConn cannot yield nil",
+			"an invariant that pickConn's unchecked map lookups rely on is broken: "+strings.Join(broken, "; "))
+	}
+
 	// ---- C16.close
 	okClose := false
 	for _, rl := range rangeLoops(g.closeFn, func(v ssa.Value) bool { return isLoadOf(v, "GCPMultiEndpoint.pools") }) {
